@@ -228,3 +228,21 @@ func rewriteMapRange(rs *ast.RangeStmt, n int) {
 	}
 	rs.Body.List = append(pre, rs.Body.List...)
 }
+
+// mentions reports whether the type checker saw a channel operand of
+// range/len/cap in the file (channels that only appear through fields of
+// other packages, e.g. time.Ticker.C, have no syntactic trace).
+func (f *typeFacts) mentions(path string) bool {
+	pre := path + ":"
+	for k := range f.chanRange {
+		if strings.HasPrefix(k, pre) {
+			return true
+		}
+	}
+	for k := range f.chanLenCap {
+		if strings.HasPrefix(k, pre) {
+			return true
+		}
+	}
+	return false
+}
